@@ -24,7 +24,7 @@ Open Scope N_scope.
 
 Lemma ecode_skip_ok :
   ecode "thrift.errDepthLimitExceeded" = e_depth /\ ecode "thrift.errNegativeSize" = e_neg_size /\
-  ecode "thrift.Skip#thrift.NewProtocolException" = e_unknown_type /\ gfuel = e_fuel.
+  ecode "thrift.SkipDecoderTpl.Skip#thrift.NewProtocolException" = e_unknown_type /\ gfuel = e_fuel.
 Proof. repeat split; reflexivity. Qed.
 
 (* ---------- the table typeToSize, as the generated code and as the hand model index it ---------- *)
